@@ -32,7 +32,11 @@
 #endif
 #define RING_BYTES (4u * RING_W)
 
+#ifdef RING_EXTRA_WORD
+uint32_t ring_data[RING_W + 1];   /* index W exists in the real double mapping (aliases word 0); only qb_rb_open touches it */
+#else
 uint32_t ring_data[RING_W];
+#endif
 
 static void *verif_ring_memcpy(void *dst, const void *src, size_t n);
 #define memcpy verif_ring_memcpy
